@@ -278,6 +278,25 @@ def generate(rng, tier, pre):
             add("ecies_decrypt_msg", b)
             for m in list(mutations(rng, b, 6, 6))[:12]:
                 add("ecies_decrypt_msg", m)
+    # 5d. truncated compact-size integers at every position a transaction has one (marker byte with 0..7 payload bytes
+    #     missing), and fixed-length byte arguments of every length through the remaining public entry points
+    for marker, width in ((b"\xfd", 2), (b"\xfe", 4), (b"\xff", 8)):
+        for have in range(width):
+            e = marker + b"\x01" * have
+            add("tx", b"\x01\x00\x00\x00" + e)                                  # input count
+            add("tx", b"\x01\x00\x00\x00\x01" + bytes(36) + e)                  # script length of input 0
+            add("tx", b"\x01\x00\x00\x00\x00" + e)                              # output count
+            add("tx", b"\x01\x00\x00\x00\x00\x01" + bytes(8) + e)              # script length of output 0
+            add("txin", bytes(36) + e)
+            add("txout", bytes(8) + e)
+            add("tx_hex", (b"\x01\x00\x00\x00" + e).hex().encode())
+    for n in range(0, 71 if not q else 45):
+        for dec in ("getpub_digest", "getpub_msg", "coinbase_script", "outpoint_txin", "prev_txid", "bsm_verify", "key_from_k"):
+            cases.append(("dec." + dec, ["l:%d:%d" % (n + 2, n)]))
+    for m in (b"", b" ", b"abandon " * 11 + b"about", b"\xff\xfe", b"a" * 300):
+        cases.append(("dec.mnemonic", [m.hex()]))
+        cases.append(("dec.mnemonic", [m.hex(), b"TREZOR".hex()]))
+        cases.append(("dec.mnemonic", [m.hex(), ""]))
     # 6. digests of every length 0..70
     for n in range(0, 71 if not q else 40):
         for dec in ("verify_hashbuf", "sign_digest", "recover_digest"):
